@@ -2,6 +2,7 @@
 pub mod checks;
 pub mod common;
 pub mod crash;
+pub mod dom;
 pub mod extras;
 pub mod hook;
 pub mod ilv;
